@@ -10,7 +10,8 @@ fn parse_plain_decimal(text: &str) -> Option<f64> {
     if digits.is_empty() || !digits.chars().all(|c| c.is_ascii_digit() || c == '.') {
         return None;
     }
-    text.parse::<f64>().ok()
+    // A decimal too large for f64 would silently become infinity
+    text.parse::<f64>().ok().filter(|value| value.is_finite())
 }
 
 pub fn parse_simple_polynomial<S>(input: S) -> Result<SimplePolynomial, PolynomialError>
@@ -92,6 +93,12 @@ where
     let mut coeffs = vec![0.0; max_power + 1];
     for &(coeff, power) in terms {
         coeffs[power] += coeff;
+        if !coeffs[power].is_finite() {
+            // Like powers that add up beyond the range of f64
+            return Err(PolynomialError::InvalidCoefficient {
+                coeff: coeff.to_string(),
+            });
+        }
     }
     Ok(SimplePolynomial {
         coefficients: coeffs,
